@@ -180,7 +180,7 @@ def run(ctx, model_ok):
                             'why': 'colouring changed the text of the trace line'})
     # the command line: --show-tid / --no-show-tid / --color / --no-color reach the line builders
     from . import cli_common
-    cli_common.run(ctx, ['traces', 'kevents', 'callstacks', 'logs'], 32 if ctx.quick() else 500)
+    cli_common.run(ctx, ['traces', 'kevents', 'callstacks', 'logs'], 120 if ctx.quick() else 900)
     ctx.samples = [{'switches': dict(zip(SW, info[0][2])), 'impl_event_line': out[0][0]['items'][:1], 'impl_trace_line': out[0][2]['items'][:1]}]
     if model_ok:
         bad, errors = vlib.run_model_cases('C14', HEADER, 'gcase', 'gcheck', cases, per_file=8)
